@@ -43,6 +43,8 @@ def check(ctx):
     for p in R.selfcheck(fx): raise F.InfraError("role self-check: " + p)
     lockp = lambda r: r[0] == "lock" and r[1] and r[1][-1] == "streams_lock"
     table = _reader_table()
+    import lockrules
+    lockrules.check_spin_lock_primitive(ctx, "R17.1")
     # ------------------------------------------------------------------ R17.1 writers under the lock
     n_w = 0
     writers = set()
